@@ -288,7 +288,7 @@ pub fn clone_hook() {
 // ---------------------------------------------------------------------------------------------
 // element types
 
-pub trait KeyT: Hash + Eq + Clone + Send + Sync + 'static {
+pub trait KeyT: Hash + Eq + Clone + Send + Sync + serde::Serialize + serde::de::DeserializeOwned + 'static {
     type Q: Hash + equivalent::Equivalent<Self> + Sync;
     const TRACKED: bool;
     fn make(class: u32) -> Self;
@@ -298,7 +298,7 @@ pub trait KeyT: Hash + Eq + Clone + Send + Sync + 'static {
     fn from_q(q: &Self::Q) -> Self;
 }
 
-pub trait ValT: Clone + PartialEq + Send + Sync + 'static {
+pub trait ValT: Clone + PartialEq + Send + Sync + serde::Serialize + serde::de::DeserializeOwned + 'static {
     fn make(v: u32) -> Self;
     fn v(&self) -> u32;
     fn id(&self) -> u32;
@@ -715,4 +715,109 @@ pub fn setup_chaos(seed: u64, pos: Vec<u64>, tags: u64, hash: bool, eq: bool) {
         e.chaos_hash = hash;
         e.chaos_eq = eq;
     });
+}
+
+// ---------------------------------------------------------------------------------------------
+// serde: keys and values travel as plain integers (class / value); identities are created on deserialisation
+
+macro_rules! serde_as_u32 {
+    ($t:ty, $get:expr, $make:expr) => {
+        impl serde::Serialize for $t {
+            fn serialize<S: serde::Serializer>(&self, s: S) -> Result<S::Ok, S::Error> {
+                let f: fn(&$t) -> u32 = $get;
+                s.serialize_u32(f(self))
+            }
+        }
+        impl<'de> serde::Deserialize<'de> for $t {
+            fn deserialize<D: serde::Deserializer<'de>>(d: D) -> Result<Self, D::Error> {
+                let x = <u32 as serde::Deserialize>::deserialize(d)?;
+                let f: fn(u32) -> $t = $make;
+                Ok(f(x))
+            }
+        }
+    };
+}
+serde_as_u32!(Key, |k| k.class, |c| <Key as KeyT>::make(c));
+serde_as_u32!(K1, |k| k.0 as u32, |c| K1(c as u8));
+serde_as_u32!(K2, |k| k.0 as u32, |c| K2(c as u16));
+serde_as_u32!(K4, |k| k.0, |c| K4(c));
+serde_as_u32!(K8, |k| k.0 as u32, |c| K8(c as u64));
+serde_as_u32!(K3, |k| k.0[0] as u32, |c| <K3 as KeyT>::make(c));
+serde_as_u32!(K5, |k| k.0[0] as u32, |c| <K5 as KeyT>::make(c));
+serde_as_u32!(K6, |k| k.0[0] as u32, |c| <K6 as KeyT>::make(c));
+serde_as_u32!(K7, |k| k.0[0] as u32, |c| <K7 as KeyT>::make(c));
+impl<P: Pad> serde::Serialize for Val<P> {
+    fn serialize<S: serde::Serializer>(&self, s: S) -> Result<S::Ok, S::Error> {
+        s.serialize_u32(self.v)
+    }
+}
+impl<'de, P: Pad> serde::Deserialize<'de> for Val<P> {
+    fn deserialize<D: serde::Deserializer<'de>>(d: D) -> Result<Self, D::Error> {
+        let x = <u32 as serde::Deserialize>::deserialize(d)?;
+        Ok(<Val<P> as ValT>::make(x))
+    }
+}
+
+/// Mock map / sequence input: items, a (possibly lying) size hint, an error injected before item `fail_at`.
+pub struct MockInput {
+    pub items: Vec<(u32, u32)>,
+    pub pos: usize,
+    pub hint: Option<usize>,
+    pub fail_at: Option<usize>,
+    pub pending_value: Option<u32>,
+}
+use serde::de::IntoDeserializer;
+impl<'de> serde::de::MapAccess<'de> for MockInput {
+    type Error = serde::de::value::Error;
+    fn next_key_seed<K: serde::de::DeserializeSeed<'de>>(&mut self, seed: K) -> Result<Option<K::Value>, Self::Error> {
+        if self.fail_at == Some(self.pos) {
+            return Err(serde::de::Error::custom("injected input error"));
+        }
+        if self.pos >= self.items.len() {
+            return Ok(None);
+        }
+        let (k, v) = self.items[self.pos];
+        self.pos += 1;
+        self.pending_value = Some(v);
+        seed.deserialize(k.into_deserializer()).map(Some)
+    }
+    fn next_value_seed<V: serde::de::DeserializeSeed<'de>>(&mut self, seed: V) -> Result<V::Value, Self::Error> {
+        let v = self.pending_value.take().unwrap();
+        seed.deserialize(v.into_deserializer())
+    }
+    fn size_hint(&self) -> Option<usize> {
+        self.hint
+    }
+}
+impl<'de> serde::de::SeqAccess<'de> for MockInput {
+    type Error = serde::de::value::Error;
+    fn next_element_seed<T: serde::de::DeserializeSeed<'de>>(&mut self, seed: T) -> Result<Option<T::Value>, Self::Error> {
+        if self.fail_at == Some(self.pos) {
+            return Err(serde::de::Error::custom("injected input error"));
+        }
+        if self.pos >= self.items.len() {
+            return Ok(None);
+        }
+        let (k, _) = self.items[self.pos];
+        self.pos += 1;
+        seed.deserialize(k.into_deserializer()).map(Some)
+    }
+    fn size_hint(&self) -> Option<usize> {
+        self.hint
+    }
+}
+pub struct MockDe(pub MockInput, pub bool);
+impl<'de> serde::Deserializer<'de> for MockDe {
+    type Error = serde::de::value::Error;
+    fn deserialize_any<V: serde::de::Visitor<'de>>(self, visitor: V) -> Result<V::Value, Self::Error> {
+        if self.1 {
+            visitor.visit_map(self.0)
+        } else {
+            visitor.visit_seq(self.0)
+        }
+    }
+    serde::forward_to_deserialize_any! {
+        bool i8 i16 i32 i64 i128 u8 u16 u32 u64 u128 f32 f64 char str string bytes byte_buf option unit unit_struct
+        newtype_struct seq tuple tuple_struct map struct enum identifier ignored_any
+    }
 }
